@@ -23,7 +23,7 @@ def r_align(ctx):
     ctx.unit("Function.%s" % K.GEN_TWO)
     outer, inner = g.loops[0]["node"], g.loops[1]["node"]
     cons = g.cons_var
-    # row variable: the list appended to inside the inner loop (other than the class list)
+    # row variable: the local list appended to inside the inner loop (other than the class list)
     row_apps = [c for c in ast.walk(inner) if isinstance(c, ast.Call) and call_name(c) == "append" and isinstance(c.func.value, ast.Name)]
     rows = {c.func.value.id for c in row_apps}
     ok = len(rows) == 1
@@ -31,29 +31,31 @@ def r_align(ctx):
     table = None
     if ok:
         row = rows.pop()
-        pc = flow.path_counts(inner.body, lambda n: isinstance(n, ast.Call) and call_name(n) == "append" and dotted(n.func.value) == row)
-        ok = set(pc) == {"next"} and pc["next"] == {1}
-        msg = "exactly one cell per pair on every path" if ok else "cells appended per pair: %s" % {k: sorted(v) for k, v in pc.items()}
+        problems = []
+        for st in K.pair_states():
+            for p in K.inner_paths(g, st):
+                if p.kind == "raise":
+                    continue
+                cells = [ev.value.args[0] for ev in p.trace if isinstance(ev, ast.Expr) and isinstance(ev.value, ast.Call) and call_name(ev.value) == "append"
+                         and dotted(ev.value.func.value) == row]
+                cl = [ev.value.args[0] for ev in p.trace if isinstance(ev, ast.Expr) and isinstance(ev.value, ast.Call) and call_name(ev.value) == "append"
+                      and dotted(ev.value.func.value) == "self.list_of_class_constraints"]
+                emitted = any(ev is g.cb_stmt for ev in p.trace)
+                if len(cells) != 1:
+                    problems.append("%d cells for one pair (%s)" % (len(cells), st))
+                elif emitted and not (dotted(cells[0]) == cons and len(cl) == 1 and dotted(cl[0]) == cons):
+                    problems.append("an emitted pair puts `%s` in the table and %s in the class-constraint list (expected the constraint `%s` in both)"
+                                    % (src(cells[0]), [src(x) for x in cl], cons))
+                elif not emitted and not (src(cells[0]) == "0" and not cl):
+                    problems.append("a skipped pair puts `%s` in the table%s (expected 0)" % (src(cells[0]), " and appends to the class list" if cl else ""))
+        ok = not problems
+        msg = "exactly one cell per pair on every path: the constraint (also appended to the class-constraint list) or 0" if ok else "; ".join(sorted(set(problems))[:3])
         if ok:
-            # emit path: the cell is the constraint; skip path: 0
-            cells = {}
-            for c in row_apps:
-                st = common.stmt_of(c)
-                same_branch_as_cb = any(n is g.cb_stmt for n in flow.block_of(st)[2])
-                cells["emit" if same_branch_as_cb else "skip"] = src(c.args[0])
-            ok = cells.get("emit") == cons and cells.get("skip") == "0"
-            msg = "the cell of an emitted pair is its constraint, of a skipped pair 0" if ok else "cells are %s (expected the constraint `%s` / 0)" % (cells, cons)
-        if ok:
-            cl = [c for c in ast.walk(inner) if isinstance(c, ast.Call) and call_name(c) == "append" and dotted(c.func.value) == "self.list_of_class_constraints"]
-            ok = len(cl) == 1 and dotted(cl[0].args[0]) == cons and any(n is common.stmt_of(cl[0]) for n in flow.block_of(g.cb_stmt)[2])
-            if not ok:
-                msg = "the constraint put in the table is not the one appended to the class-constraint list"
-        if ok:
-            tapp = [s for s in outer.body if isinstance(s, ast.Expr) and isinstance(s.value, ast.Call) and call_name(s.value) == "append"
-                    and dotted(s.value.args[0]) == row and isinstance(s.value.func.value, ast.Name)]
-            rinit = [s for s in outer.body if isinstance(s, ast.Assign) and dotted(s.targets[0]) == row and src(s.value) in ("list()", "[]")]
+            tapp = [s0 for s0 in outer.body if isinstance(s0, ast.Expr) and isinstance(s0.value, ast.Call) and call_name(s0.value) == "append"
+                    and dotted(s0.value.args[0]) == row and isinstance(s0.value.func.value, ast.Name)]
+            rinit = [s0 for s0 in outer.body if isinstance(s0, ast.Assign) and dotted(s0.targets[0]) == row and src(s0.value) in ("list()", "[]")]
             ok = len(tapp) == 1 and len(rinit) == 1 and rinit[0].lineno < inner.lineno < tapp[0].lineno
-            msg = "one fresh row per outer sample, appended once after its pairs" if ok else "rows are not (fresh row, inner loop, append row) per outer sample"
+            msg = "one fresh row per outer sample, appended once after its pairs; " + msg if ok else "rows are not (fresh row, inner loop, append row) per outer sample"
             if ok:
                 table = tapp[0].value.func.value.id
     ctx.ob("R-ALIGN", "Function.%s::cells and rows" % K.GEN_TWO, ok, msg, loc(fn, inner))
@@ -125,25 +127,35 @@ def r_name(ctx):
     for name, g in ca.gens.items():
         fn = g.fn
         sets = [c for c in ast.walk(g.loops[-1]["node"]) if isinstance(c, ast.Call) and call_name(c) == "set_name" and dotted(c.func.value) == g.cons_var]
-        ok = len(sets) == 1 and isinstance(sets[0].args[0], ast.Call) and call_name(sets[0].args[0]) == "format"
-        msg = "class constraints are not named once by a format call"
+        args = _name_parts(sets[0].args[0]) if len(sets) == 1 and sets[0].args else None
+        ok = args is not None
+        msg = "class constraints are not named once from a format string"
         if ok:
-            fmt = sets[0].args[0]
-            args = fmt.args
             want_n = 2 + g.arity
             roles = []
             for a in args:
                 roles.append(_id_role(fn, g, a))
             want = ["function", "name"] + ["sample%d" % k for k in range(g.arity)]
-            ok = roles == want and isinstance(fmt.func.value, ast.Constant) and fmt.func.value.value.count("{}") == want_n
+            ok = roles == want and len(args) == want_n
             msg = "name = (function id, condition name, %s)" % ", ".join("sample %d id" % (k + 1) for k in range(g.arity)) if ok else \
                 "name is built from %s, expected %s" % (roles, want)
             if ok:
-                # same block as the callback call (named exactly when emitted)
-                ok = any(n is common.stmt_of(sets[0]) for n in flow.block_of(g.cb_stmt)[2])
+                # named exactly when emitted: the naming statement is dominated by the creation of the constraint
+                ok = flow.dominates(g.cb_stmt, common.stmt_of(sets[0]))
                 if not ok:
-                    msg = "the name is not set in the block that creates the constraint"
+                    msg = "the name is not set on the paths that create the constraint"
         ctx.ob("R-NAME", "Function.%s" % name, ok, msg, loc(fn, sets[0] if sets else fn))
+
+
+def _name_parts(e):
+    """Placeholders of `"...{}...".format(a, b, ...)` or of an f-string, in order (None when the name is built another way)."""
+    if isinstance(e, ast.Call) and call_name(e) == "format" and isinstance(e.func, ast.Attribute) and isinstance(e.func.value, ast.Constant):
+        if e.func.value.value.count("{}") == len(e.args):
+            return list(e.args)
+        return None
+    if isinstance(e, ast.JoinedStr):
+        return [v.value for v in e.values if isinstance(v, ast.FormattedValue)]
+    return None
 
 
 def _defs_closure(fn, name, depth=0, seen=None):
@@ -214,31 +226,65 @@ def r_tabletype(ctx):
     if fn is None:
         raise AnalysisError("Function.get_class_constraints_duals missing")
     ctx.unit("Function.get_class_constraints_duals")
+    from ..absint import PathEval, bool_decider
     outer = [l for l in flow.stmts_of(fn, ast.For) if isinstance(l.iter, ast.Call) and call_name(l.iter) == "items" and dotted(l.iter.func.value) == "self.tables_of_constraints"]
-    ok = len(outer) == 1
+    ok = len(outer) == 1 and isinstance(outer[0].target, ast.Tuple)
     msg = "the reader does not iterate all tables"
     if ok:
         k, t = [e.id for e in outer[0].target.elts]
-        rows = [l for l in flow.stmts_of_block(outer[0]) if isinstance(l, ast.For) and isinstance(l.iter, ast.Call) and call_name(l.iter) == "iterrows" and dotted(l.iter.func.value) == t]
-        ok = len(rows) == 1
-        if ok:
-            cells = [l for l in rows[0].body if isinstance(l, ast.For)]
-            ok = len(cells) == 1 and isinstance(cells[0].target, ast.Name)
-            if ok:
-                e = cells[0].target.id
-                arms, orelse = flow.closed_chain(cells[0].body[0]) if isinstance(cells[0].body[0], ast.If) else ([], [])
-                kinds = {}
-                for tst, body in arms:
-                    app = [c for b in body for c in ast.walk(b) if isinstance(c, ast.Call) and call_name(c) == "append"]
-                    if isinstance(tst, ast.Call) and call_name(tst) == "isinstance" and dotted(tst.args[1]) == "Constraint":
-                        kinds["constraint"] = [src(a.args[0]) for a in app]
+        # (a) which function converts one cell: the one holding `isinstance(<cell>, Constraint)`
+        conv_fn, cell = None, None
+        cands = [fn] + [f2 for f2 in fbase.methods.values() if f2.name.startswith("_") and any(isinstance(c, ast.Call) and call_name(c) == f2.name for c in ast.walk(fn))]
+        for f2 in cands:
+            for c in ast.walk(f2):
+                if isinstance(c, ast.Call) and call_name(c) == "isinstance" and len(c.args) == 2 and dotted(c.args[1]) == "Constraint" and isinstance(c.args[0], ast.Name):
+                    conv_fn, cell = f2, c.args[0].id
+        okc = conv_fn is not None
+        kinds = {}
+        if okc:
+            # the smallest statement list containing the dispatch: the body of the innermost loop binding the cell, or the helper's body
+            body = conv_fn.body
+            for l in flow.stmts_of(conv_fn, ast.For):
+                if isinstance(l.target, ast.Name) and l.target.id == cell:
+                    body = l.body
+            for kind in ("Constraint", "int", "float", "str"):
+                def atom(tt, kind=kind):
+                    if isinstance(tt, ast.Call) and call_name(tt) == "isinstance" and len(tt.args) == 2 and dotted(tt.args[0]) == cell:
+                        ks = tt.args[1].elts if isinstance(tt.args[1], ast.Tuple) else [tt.args[1]]
+                        return kind in {dotted(x) for x in ks}
+                    return None
+                fb = ast.FunctionDef(name="_cell", args=ast.arguments(posonlyargs=[], args=[], kwonlyargs=[], kw_defaults=[], defaults=[]), body=body, decorator_list=[])
+                outs = set()
+                for pth in PathEval(fb, bool_decider(atom), loop_mode="once").run():
+                    if pth.kind == "raise":
+                        outs.add("raise " + pth.exc)
+                    elif pth.kind == "return":
+                        outs.add("-> " + (pth.value_text or "None"))
                     else:
-                        kinds["scalar"] = [src(a.args[0]) for a in app]
-                ok = kinds.get("constraint") == ["%s.eval_dual()" % e] and kinds.get("scalar") == [e] and bool(orelse) and flow.always_raises(orelse)
-                msg = "each cell becomes its multiplier (a constraint) or itself (0), in place; anything else raises" if ok else "cell mapping is %s" % kinds
-        df = [s for s in flow.stmts_of_block(outer[0]) if isinstance(s, ast.Assign) and isinstance(s.value, ast.Call) and call_name(s.value) == "DataFrame"]
+                        apps = [src(ev.value.args[0]) for ev in pth.trace if isinstance(ev, ast.Expr) and isinstance(ev.value, ast.Call) and call_name(ev.value) == "append"]
+                        outs.add("-> " + (apps[0] if len(apps) == 1 else "%d appends" % len(apps)))
+                kinds[kind] = outs
+            want = {"Constraint": {"-> %s.eval_dual()" % cell}, "int": {"-> %s" % cell}, "float": {"-> %s" % cell}, "str": {"raise TypeError"}}
+            okc = kinds == want
+        ok = okc
+        msg = "each cell becomes its multiplier (a constraint) or itself (a scalar), anything else raises" if ok else \
+            "cell conversion per kind is %s" % {a: sorted(b) for a, b in kinds.items()}
+        if ok:
+            # (b) rows and cells are visited in table order: iterrows() outside, the row inside (loops or nested comprehension)
+            rows_it = [n for n in ast.walk(outer[0]) if isinstance(n, ast.Call) and call_name(n) == "iterrows" and dotted(n.func.value) == t]
+            ok = len(rows_it) == 1
+            if ok:
+                holder = rows_it[0]._parent
+                rowvar = None
+                if isinstance(holder, (ast.For, ast.comprehension)) and isinstance(holder.target, ast.Tuple) and len(holder.target.elts) == 2:
+                    rowvar = holder.target.elts[1].id if isinstance(holder.target.elts[1], ast.Name) else None
+                inner_ok = rowvar is not None and any((isinstance(n, (ast.For, ast.comprehension)) and dotted(n.iter) == rowvar) for n in ast.walk(outer[0]))
+                ok = inner_ok
+            if not ok:
+                msg = "the table of multipliers is not built by visiting table.iterrows() and each row in order"
+        df = [s0 for s0 in flow.stmts_of_block(outer[0]) if isinstance(s0, ast.Assign) and isinstance(s0.value, ast.Call) and call_name(s0.value) == "DataFrame"]
         okd = len(df) == 1 and src(get_arg(df[0].value, None, "columns")) == t + ".columns" and src(get_arg(df[0].value, None, "index")) == t + ".index"
-        st = [s for s in flow.stmts_of_block(outer[0]) if isinstance(s, ast.Assign) and isinstance(s.targets[0], ast.Subscript) and dotted(s.targets[0].slice) == k]
+        st = [s0 for s0 in flow.stmts_of_block(outer[0]) if isinstance(s0, ast.Assign) and isinstance(s0.targets[0], ast.Subscript) and dotted(s0.targets[0].slice) == k]
         okd = okd and len(st) == 1 and dotted(st[0].value) == dotted(df[0].targets[0])
         if ok and not okd:
             ok, msg = False, "the table of multipliers does not reuse the labels of the table of constraints / is not stored under the same key"
@@ -279,7 +325,7 @@ def r_bypass(ctx):
                 # the name mentions function id, the block / condition and both samples' ids
                 ev = [e for e in names if e[1] == var][0]
                 fmt = ev[2].value.args[0] if ev[2].value.args else None
-                nargs = len(fmt.args) if isinstance(fmt, ast.Call) and call_name(fmt) == "format" else 0
+                nargs = len(_name_parts(fmt) or []) if fmt is not None else 0
                 need = 1 + len(em.lists) + (1 if em.block else 0)
                 ctx.ob("R-NAME", em.key, nargs >= need, "the name is built from %d identifying parts" % nargs if nargs >= need else
                        "the name is built from %d parts, %d are needed (function, block / condition, samples)" % (nargs, need), em.where)
@@ -299,10 +345,11 @@ def _hook_name_parts(ctx, cls, hook, em, ev):
     fn = hook.fn
     loops = [l for l in ev[3] if l["kind"] == "samples"]
     fmt = ev[2].value.args[0] if ev[2].value.args else None
-    if not (isinstance(fmt, ast.Call) and call_name(fmt) == "format"):
+    parts = _name_parts(fmt) if fmt is not None else None
+    if parts is None:
         return
     ids = []
-    for a in fmt.args:
+    for a in parts:
         if not isinstance(a, ast.Name):
             continue
         defs = [s for s in flow.stmts_of(fn, ast.Assign) if dotted(s.targets[0]) == a.id]
